@@ -325,6 +325,7 @@ func typeUnits(c *engine.Ctx) {
 					typePlane(c, wkind{name: name}, n, fam, rs, b, typeModes(name, n, c.Thorough()))
 				}
 				pipeRuns(c, n, fam, rs, b)
+				osFileRuns(c, n, fam, rs, b)
 				faultFreeTypes(c, n, fam, rs, b)
 			})
 			c.Unit(fmt.Sprintf("wtype/bufio/n=%d/%s", n, fam), func() {
